@@ -48,6 +48,26 @@ pub fn check_node<C: Cfg>(enc: &RangeEncoder<C::W, C::S>, hist: &[Letter], sfx: 
         return out;
     }
     let sealed = enc.clone().into_compressed().unwrap();
+    // an encoder writing BEHIND data that is already on the sink must leave that data alone also when it is
+    // looked at in between (a temporary view seals and unseals on the shared sink)
+    {
+        let prefix: Vec<C::W> = vec![C::w(0x5a), C::w(0), C::w(1)];
+        let mut e = RangeEncoder::<C::W, C::S, Vec<C::W>>::with_backend(prefix.clone());
+        let mut ok = true;
+        for &l in hist {
+            if C::range_encode(&mut e, l).is_err() { ok = false; break; }
+            let _ = e.get_compressed().len();
+        }
+        if ok {
+            let all = e.into_compressed().unwrap();
+            let mut expect = prefix.clone();
+            expect.extend(sealed.iter().cloned());
+            if to_u128(&all) != to_u128(&expect) {
+                out.push(("RangeEncoder::with_backend | data already on the sink (or the message behind it) is damaged when the encoder is inspected between symbols".to_string(),
+                    format!("{}: history {:?}: sink holds {:x?}, expected {:x?}", C::NAME, hist, to_u128(&all), to_u128(&expect))));
+            }
+        }
+    }
     let wide = C::SBITS > 2 * C::WBITS;
     let class = if wide { "State wider than two Words" } else { "State == two Words" };
     let mut ndec = 0u64;
@@ -153,8 +173,8 @@ pub fn run(report: &Report) {
     for n in ["nodes_sealed_with_zero_word", "nodes_sealed_with_more_than_one_zero_word", "nodes_inverted_at_seal", "nodes_state_wider_than_two_words"] {
         report.require(n);
     }
-    explore::<U8U16>(report, &range_alphabet12::<U8U16>(), if q { 5 } else { 7 }, "a12@P8");
-    explore::<U8U32>(report, &range_alphabet12::<U8U32>(), if q { 5 } else { 7 }, "a12@P8");
+    explore::<U8U16>(report, &range_alphabet12::<U8U16>(), if q { 6 } else { 7 }, "a12@P8");
+    explore::<U8U32>(report, &range_alphabet12::<U8U32>(), if q { 6 } else { 7 }, "a12@P8");
     explore::<U8U32>(report, &range_alphabet5::<U8U32>(), if q { 9 } else { 10 }, "a5@P8 {(0,1),(255,1),(17,239),(128,127),(3,5)}");
     explore::<U8U64>(report, &range_alphabet5::<U8U64>(), if q { 8 } else { 9 }, "a5@P8");
     if !q {
@@ -165,7 +185,7 @@ pub fn run(report: &Report) {
     }
     explore::<U8U16>(report, &small_alphabet::<U8U16>(), if q { 4 } else { 6 }, "mixed-precision-14");
     explore::<U8U32>(report, &small_alphabet::<U8U32>(), if q { 4 } else { 6 }, "mixed-precision-14");
-    explore::<U16U32>(report, &range_alphabet12::<U16U32>(), if q { 4 } else { 5 }, "a12@P16");
+    explore::<U16U32>(report, &range_alphabet12::<U16U32>(), if q { 5 } else { 6 }, "a12@P16");
     explore::<U16U64>(report, &range_alphabet12::<U16U64>(), if q { 4 } else { 5 }, "a12@P16");
     explore::<U16U64>(report, &range_alphabet5::<U16U64>(), if q { 6 } else { 8 }, "a5@P16");
     explore::<U32U64>(report, &range_alphabet12::<U32U64>(), if q { 3 } else { 5 }, "a12@P32");
